@@ -11,6 +11,7 @@ import (
 	"math/big"
 	"strconv"
 
+	"github.com/kklash/bitcoinlib/bech32"
 	"github.com/kklash/bitcoinlib/bip32"
 	"github.com/kklash/bitcoinlib/ecc"
 	"github.com/kklash/bitcoinlib/script"
@@ -379,6 +380,94 @@ func init() {
 					r.Do("sighash.legacy", args, "legacy-many-inputs", true, "")
 					r.Do("sighash.legacy.spec", args, "legacy-many-inputs-spec", true, "")
 				}
+			}
+		}
+	})
+}
+
+func init() {
+	// C09: Bech32 strings whose HRP merely *starts with* the network's HRP followed by the separator
+	// character ("bc1x", "tb1tb", "1" on a network without segwit): the separator is the LAST '1'
+	regExtra("C09", func(r *Runner) {
+		nets := map[string]string{"btc": "bc", "tbtc": "tb", "ltc": "ltc", "zec": ""}
+		for net, hrp := range nets {
+			for _, ext := range []string{"1", "1x", "1" + hrp, "11", "1q", "x", ""} {
+				for _, n := range []int{20, 32} {
+					for k := 0; k < r.N(2, 20); k++ {
+						s, err := bech32.Encode(hrp+ext, 0, r.bytesN(n))
+						if err != nil {
+							continue
+						}
+						for _, target := range []string{"btc", "tbtc", "ltc", "zec"} {
+							r.Do("addr.dec", []string{target, sx(s)}, "bech32-hrp-extended-"+net, true, "HRP "+hrp+ext)
+						}
+					}
+				}
+			}
+		}
+	})
+}
+
+func init() {
+	// C18: results must not depend on which slice (as opposed to which bytes) an argument arrives in:
+	// the private-derivation operation carries a reused-buffer comparison (bip32.go)
+	regExtra("C18", func(r *Runner) {
+		if _, ok := ops["bip32.ckdpriv"]; !ok {
+			return
+		}
+		for i := 0; i < r.N(40, 600); i++ {
+			key, cc := r.bytesN(32), r.bytesN(32)
+			key[0] &= 0x7f
+			key[31] |= 1
+			idx := strconv.Itoa(r.rng.Intn(1 << 20)) // non-hardened: the parent public key is needed
+			r.DoMode("bip32.ckdpriv", []string{hx(key), hx(cc), idx}, "ckdpriv-reused-buffer", true, "", GoOnly)
+		}
+	})
+
+	// C17: the structural field space of DER signatures (declared lengths that do not fit, 0xff, …),
+	// which truncation / single-byte mutation of valid signatures does not reach
+	regExtra("C17", func(r *Runner) {
+		c := &c17runner{r: r, maxAlloc: map[string]uint64{}}
+		defer func() {
+			if c.child != nil {
+				c.child.stop()
+			}
+		}()
+		lens := []int{0, 1, 2, 3, 0x20, 0x21, 0x7f, 0x80, 0xfe, 0xff}
+		for L := 9; L <= 73; L++ {
+			for k := 0; k < r.N(12, 200); k++ {
+				b := r.bytesN(L)
+				b[0] = 0x30
+				b[1] = byte(L - 3)
+				b[2] = 2
+				rl := lens[r.rng.Intn(len(lens))]
+				switch r.rng.Intn(4) {
+				case 0:
+					rl = L - 6
+				case 1:
+					rl = L - 5
+				case 2:
+					rl = r.rng.Intn(L)
+				}
+				b[3] = byte(rl)
+				if 4+rl < L {
+					b[4+rl] = 2
+				}
+				if 5+rl < L {
+					sl := lens[r.rng.Intn(len(lens))]
+					if r.rng.Intn(2) == 0 {
+						sl = L - 7 - rl
+					}
+					b[5+rl] = byte(sl)
+				}
+				if r.rng.Intn(2) == 0 {
+					b[4] &= 0x7f
+					b[4] |= 1
+				}
+				if r.rng.Intn(3) == 0 {
+					b[L-1] = 2
+				}
+				c.do("der.dec", []string{hx(b)}, "der.dec:structural", L, true)
 			}
 		}
 	})
